@@ -216,3 +216,52 @@ func c20BatchFinish(m *c20Mon, err error, slotIsErr bool, slotErr error, ctxErr 
 		vAssert(m.postAt == m.lastEnd, "no-wait-after-last-attempt")
 	}
 }
+
+// the wait that counts is the one configured when the run starts: a node (single or batch) that has
+// already been run and is then given another wait through its builder waits THAT long between the
+// attempts of its next run
+func VH_C20_reconfigured() {
+	vUnwind(8)
+	w1, w2 := vNondet[time.Duration]("w1"), vNondet[time.Duration]("w2")
+	vAssume(w1 >= 0 && w1 <= 1<<40 && w2 > 0 && w2 <= 1<<40)
+	run, attempts := 0, 0
+	var failedAt time.Duration
+	attempt := func() error {
+		var err error
+		vMon(func() {
+			attempts++
+			now := vNow()
+			if attempts == 2 && run == 2 {
+				vAssert(now-failedAt >= w2, "at-least-w-between-attempts")
+				vCover("second-run-waited")
+			}
+			if attempts == 1 {
+				failedAt = now
+				err = vNewErr()
+			}
+		})
+		return err
+	}
+	ctx := vNewCtx()
+	if vNondet[bool]("batchNode") {
+		vCover("batch-node")
+		b := NewBatchNode().WithMaxRetries(2).WithWait(w1).WithBatchConcurrency(vChoice("concurrency", 2)).
+			WithPrepFunc(func(ctx context.Context, s *SharedStore) ([]Result, error) { return []Result{NewResult(1)}, nil }).
+			WithExecFunc(func(ctx context.Context, item Result) (Result, error) { return item, attempt() })
+		run, attempts = 1, 0
+		Run(ctx, b, NewSharedStore())
+		b.WithWait(w2)
+		run, attempts = 2, 0
+		Run(ctx, b, NewSharedStore())
+	} else {
+		vCover("single-node")
+		n := NewNode().WithMaxRetries(2).WithWait(w1).
+			WithExecFuncAny(func(ctx context.Context, p any) (any, error) { return nil, attempt() })
+		run, attempts = 1, 0
+		Run(ctx, n, NewSharedStore())
+		n.WithWait(w2)
+		run, attempts = 2, 0
+		Run(ctx, n, NewSharedStore())
+	}
+	vAssert(attempts == 2, "second-run-retried")
+}
